@@ -245,6 +245,21 @@ def run(ctx, rep):
                 if plain is None or val.shape != plain.shape or any(f2b(a) != f2b(b) and not (math.isnan(a) and math.isnan(b))
                                                                     for a, b in zip(val.ravel(), plain.ravel())):
                     rep.violate("value returned with the gradient differs from plain evaluation", "C02:value-differs", case)
+                if not wrt_x and rng.random() < 0.3:
+                    # constants the stack never loads, supplied AFTER the ones it does: one exact-zero column each
+                    k = rng.randrange(1, 3)
+                    more = tuple(consts) + tuple(float(rng.randrange(1, 5)) for _ in range(k))
+                    rep.count("trailing_unused_constants")
+                    try:
+                        _, d2 = eb.evaluate_with_derivative(stack, x, more, False)
+                        ok2 = isinstance(d2, np.ndarray) and d2.shape == (M, L + k) and np.array_equal(d2[:, :L], d, equal_nan=True) \
+                            and all(f2b(v) in (0, 1 << 63) for v in d2[:, L:].ravel())
+                    except Exception as exc:
+                        ok2, d2 = False, exc
+                    if not ok2:
+                        rep.violate(f"with {k} further constants the stack does not load, the gradient is {getattr(d2, 'shape', d2)} "
+                                    f"(expected ({M},{L + k}) with the first {L} columns unchanged and exact zeros after them)", "C02:grad-shape",
+                                    {**case, "constants_supplied": [float(v) for v in more]})
                 loaded = {r[1] for r in stack_l if r[0] == (G.VARIABLE if wrt_x else G.CONSTANT)}
                 for jcol in range(ncols):
                     if jcol not in loaded and not all(f2b(v) in (0, 1 << 63) for v in d[:, jcol]):
